@@ -496,11 +496,14 @@ def judge(pid, tier, files, extra_cov, t0, wd, selftest_file=None):
                 if judged[(f, r['id'])]['cls'].split('/')[0] in ('exp', 'nomatch'):
                     prescribed_pairs.add((r['text'][0], r['text'][1]))
     # anti-vacuity: every class the generator is meant to produce must be present
-    for need in ('exp/ok', 'nomatch/err'):
-        if cls.get(need, 0) == 0:
-            raise vlib.ToolError('no record of class %s: the generator and the specification disagree on scope' % need)
-    if agree <= 0:
-        raise vlib.ToolError('no expansion of the implementation was confirmed by the specification')
+    # (only when nothing was rejected: an implementation whose every expansion is wrong has no confirmed class
+    #  either, and that is a verdict, not a defect of the machinery)
+    if not verdict.new:
+        for need in ('exp/ok', 'nomatch/err'):
+            if cls.get(need, 0) == 0:
+                raise vlib.ToolError('no record of class %s: the generator and the specification disagree on scope' % need)
+        if agree <= 0:
+            raise vlib.ToolError('no expansion of the implementation was confirmed by the specification')
     samples = []
     for f, R in list(recs.items())[:2]:
         for r in list(R.values())[:2]:
